@@ -54,6 +54,7 @@ def gen_cases(tier, seed):
             for t in TARGETS:
                 cases.append({"kind": "object", "cls": cname, "target": t, "children": True, "clear_cache": (hash((cname, t, rep)) % 4 == 0), "rep": rep})
             cases.append({"kind": "object", "cls": cname, "target": TARGETS[rep % 3], "children": False, "clear_cache": False, "rep": rep})
+            cases.append({"kind": "object", "cls": cname, "target": TARGETS[(rep + len(cname)) % 3], "children": True, "clear_cache": rep % 2 == 1, "mask": True, "rep": rep})
         for cname in classes["groups"]:
             if cname in ("DrillholeGroup", "IntegratorDrillholeGroup"):
                 continue
@@ -129,6 +130,11 @@ def populate(obj, rng, rec):
     cname = type(obj).__name__
     if not any(x in cname for x in ("Receivers", "Transmitters", "Electrode", "BaseStations")):
         obj.metadata = {"note": "source", "nested": {"a": 1}, "id": uuid.uuid4()}
+    if rng.random() < 0.5:
+        obj.add_comment("remark on the source", author="source author")
+        if rng.random() < 0.5:
+            obj.add_comment("second remark on the source", author="someone else")
+        rec.see("sources-with-comments")
     return made
 
 
@@ -247,6 +253,9 @@ def edit_copy_check_source(rec, scene, src, new, where, cls):
     dig0 = None
     try:
         new.name = "edited copy"
+        if getattr(new, "comments", None) is not None:
+            new.add_comment("remark on the copy", author="copy author")
+            rec.see("comments-added-to-copies")
         if getattr(type(new), "metadata", None) is not None and not any(x in type(new).__name__ for x in ("Receivers", "Transmitters", "Electrode", "BaseStations")):
             new.metadata = {"note": "copy-edit", "extra": 7}
         for c in list(getattr(new, "children", None) or []):
@@ -354,6 +363,85 @@ def do_copy(rec, scene, src, case, where):
     return new
 
 
+def do_masked_copy(rec, scene, src, case, where, rng):
+    """copy(mask=...): the copy holds the selected part, and the source -- live entities and file -- is left exactly as it was
+    (twice over: a second, different mask from the same live source must see the same source values)."""
+    cls = type(src).__name__
+    same_ws = case["target"] != "other-workspace"
+    target = scene.target(case["target"], src)
+    n_v = getattr(src, "n_vertices", None)
+    n_c = getattr(src, "n_cells", None)
+    is_grid = hasattr(src, "centroids") and not isinstance(getattr(type(src), "vertices", None), property)
+    size = n_c if hasattr(src, "centroids") and n_c else n_v
+    if not size:
+        rec.see("mask-not-applicable:" + cls)
+        return do_copy(rec, scene, src, {k: v for k, v in case.items() if k != "mask"}, where.replace(":mask", ""))
+    last = None
+    for round_ in range(2):
+        mask = np.array([rng.random() < 0.6 for _ in range(size)])
+        mask[rng.randrange(size)] = True
+        mask[(int(np.argmax(mask)) + 1) % size] = False if size > 1 else mask[0]
+        before = snap.api_snapshot(scene.ws)
+        dig0 = snap.node_digests(snap.raw_snapshot(scene.ws.geoh5))
+        kw = {"clear_cache": True} if case.get("clear_cache") else {}
+        import warnings
+
+        try:
+            with warnings.catch_warnings(record=True) as caught:
+                warnings.simplefilter("always")
+                new = src.copy(parent=target, mask=mask, **kw)
+            unsupported = any("not supported" in str(w.message) for w in caught)
+        except Exception as exc:  # noqa: BLE001
+            from ..core import exc_origin
+
+            if not exc_origin(exc)[0]:
+                raise
+            rec.see("mask-refused:" + cls + ":" + type(exc).__name__)
+            new = None
+        rec.see("masked-copies")
+        rec.see("class:" + cls)
+        after = snap.api_snapshot(scene.ws)
+        ignore = set()
+        for u in set(after) - set(before):
+            ignore |= _subtree(after, u)
+        parents = {after[u]["parent"] for u in set(after) - set(before) if after[u].get("parent")} | {str(target.uid)}
+        check_unchanged(rec, before, after, where, cls, ignore_uids=ignore, allow_children_of=parents if same_ws else set())
+        dig1 = snap.node_digests(snap.raw_snapshot(scene.ws.geoh5))
+        for p in sorted(set(dig0)):
+            if p not in dig1:
+                rec.fail("C12.source-changed", op=where, cls=cls, attr="file-node-deleted", detail=f"masked copy deleted {p} from the source file")
+            elif dig0[p]["content"] != dig1[p]["content"] and p != "<project>":
+                rec.fail("C12.source-changed", op=where, cls=cls, attr="file:" + ("type" if p.startswith("Types/") else p.split("/")[0]), detail=f"masked copy changed attributes/datasets of {p} in the source file")
+        rec.evals["C12.source-changed"] += len(dig0)
+        if new is None:
+            continue
+        last = new
+        if unsupported:
+            # the class says (warning) that it ignores the mask: the copy is a plain copy, judged by the unmasked lanes
+            rec.see("mask-unsupported:" + cls)
+            continue
+        rec.check("C12.differs", type(new) is type(src), op=where, cls=cls, attr="class", detail=f"masked copy is a {type(new).__name__}")
+        # what the copy holds: floating-point data follow the mask (grids: blanked outside; others: sub-sampled)
+        for c in getattr(src, "children", None) or []:
+            v = getattr(c, "values", None)
+            if snap._is_pg(c) or not isinstance(v, np.ndarray) or v.dtype.kind != "f" or v.shape != mask.shape:
+                continue
+            twin = [x for x in new.children if getattr(x, "name", None) == c.name and isinstance(getattr(x, "values", None), np.ndarray)]
+            if len(twin) != 1:
+                continue
+            got = np.asarray(twin[0].values, dtype=float)
+            if hasattr(src, "centroids") and got.shape == v.shape:
+                exp = np.where(mask, v, np.nan)
+            elif not hasattr(src, "cells") or n_c is None or size == n_v and str(getattr(c.association, "name", "")) == "VERTEX":
+                exp = v[mask]
+            else:
+                continue
+            ok = got.shape == exp.shape and bool(np.all((got == exp) | (np.isnan(got) & np.isnan(exp))))
+            rec.check("C12.differs", ok, op=where, cls=cls, attr="masked-values", detail=f"data {c.name!r} of the masked copy: {got.tolist()[:12]} expected {exp.tolist()[:12]} (mask {mask.tolist()[:12]})")
+    _ = is_grid
+    return last
+
+
 def reopen_compare(rec, scene, src_uid, new_uid, case, where, cls):
     """After close + re-open the copy still equals the source (the copy's edits excepted: done on a second copy)."""
 
@@ -414,8 +502,11 @@ def run_object(case, rec, rng, scene):
                 if not exc_origin(exc)[0]:
                     raise
                 rec.see("precopy-refused:" + type(exc).__name__)
-    new = do_copy(rec, scene, src, case, where)
-    rec.see("classes-covered") if case["target"] == "same-parent" and case["children"] else None
+    if case.get("mask"):
+        new = do_masked_copy(rec, scene, src, case, where + ":mask", rng)
+    else:
+        new = do_copy(rec, scene, src, case, where)
+    rec.see("classes-covered") if case["target"] == "same-parent" and case["children"] and not case.get("mask") else None
     rec.nontrivial = new is not None and len(made) >= 1
     rec.shape = ["object", cname, case["target"], case["children"], case.get("clear_cache"), sorted({type(d).__name__ for _, d in made})]
     rec.sample = {"class": cname, "target": case["target"], "children": case["children"], "data": [d.name for _, d in made][:6]}
